@@ -284,7 +284,7 @@ def small_graphs(n, outs_mode, allow_self=True):
 
 SPELLINGS = ["x", "./x", "a/../x", "x/", "dir::d", "dir::d/", "d/x", "../x", "dir::../../x", "dir::x", "dir::.", "d",
              "dir::d/x", "../d/x", "/abs", "dir::/abs", "x//y", "dir::..", "docker::img", "docker::x", "../s/x", "dir::../s",
-             "dir::./d/../d", "..x", "dir::x/y/..", "dx", "dir::dx"]
+             "dir::./d/../d", "..x", "dir::x/y/..", "dx", "dir::dx", "d.x", "d/./x", "d//x", "d/x/../x", "../../../x"]
 PKG_PAIRS = [("", ""), ("", "d"), ("d", "d"), ("d", "d/x"), ("a", "a/b"), ("a/b", "a"), ("d", "e")]
 INPUT_SPELLINGS = ["a", "../a", "/a", "a/../../b", "..", "./a", "a/..", "..a", "a/../..", "a/./b", "", ".", "a//b", "../../a", "a/b/../../c", "..."]
 
@@ -529,6 +529,53 @@ def run(ctx):
     for nodes in dup_unknown_graphs():
         add("dup-unknown", nodes)
         add("dup-unknown", list(reversed(nodes)))
+    # --- boundary sizes: long paths, many components, many outputs, long chains, wide fan-in ---------------------------
+    for k in (1, 2, 63, 64, 65, 127, 128, 129, 255, 256, 257, 1023, 1024, 1025):
+        deep = "c/" * k + "f"
+        longname = "n" * k
+        updown = "u/" * k + "../" * k + "f"            # cleans to f
+        up_one_more = "u/" * k + "../" * (k + 1) + "f"  # cleans to ../f: escapes from the root package, stays inside from p
+        for pkg in ("", "p"):
+            add("boundary", [("t", T(pkg, "a", [], [deep])), ("t", T(pkg, "b", [], ["dir::" + "c/" * (k - 1) + "c"]))])   # file inside dir
+            add("boundary", [("t", T(pkg, "a", [], [deep])), ("t", T(pkg, "b", [], ["dir::" + "c/" * (k - 1) + "cc"]))])  # sibling: no overlap
+            add("boundary", [("t", T(pkg, "a", [], [longname])), ("t", T(pkg, "b", [], [longname + "/../" + longname]))])   # same file
+            add("boundary", [("t", T(pkg, "a", [], [longname])), ("t", T(pkg, "b", [], [longname + "x"]))])
+            add("boundary", [("t", T(pkg, "a", [], ["f"])), ("t", T(pkg, "b", [], [updown]))])
+            add("boundary", [("t", T(pkg, "a", [], [up_one_more], inputs=[updown, up_one_more]))])
+        if k >= 63 and (k <= 257 or not quick):
+            # k outputs on one target, the last one clashing with another target; k inputs
+            outs = ["o%d" % i for i in range(k - 1)] + ["clash"]
+            add("boundary", [("t", T("", "many", [], outs, inputs=["i%d" % i for i in range(k)])), ("t", T("", "other", [], ["./clash"]))])
+            add("boundary", [("t", T("", "many", [], outs)), ("t", T("", "other", [L("", "many")], ["./clash"]))])
+            # chain of k nodes (every third an alias); both ends write the same file: ordered only through the whole chain
+            chain = [("t", T("", "c0", [], ["same"]))]
+            for i in range(1, k):
+                prev = L("", "c%d" % (i - 1))
+                chain.append(("a", A("", "c%d" % i, prev)) if i % 3 == 1 and i < k - 1 else
+                             ("t", T("", "c%d" % i, [prev], ["same"] if i == k - 1 else ["o%d" % i])))
+            add("boundary", list(reversed(chain)))
+            broken = [(kk, dict(nn)) for kk, nn in chain]
+            mid = k // 2
+            if broken[mid][0] == "t":
+                broken[mid][1]["deps"] = []
+            else:
+                broken[mid] = ("t", T("", "c%d" % mid, [], ["o%d" % mid]))
+            add("boundary", broken)                                     # chain cut in the middle: the ends now conflict
+            add("boundary", [(kk, (dict(nn, deps=[L("", "c%d" % (k - 1))]) if nn["name"] == "c0" else nn)) for kk, nn in chain])  # cycle of length k
+            # fan-in: one target depending on k others
+            leaves = [("t", T("", "l%d" % i, [], ["lo%d" % i])) for i in range(k)]
+            add("boundary", leaves + [("t", T("", "top", [L("", "l%d" % i) for i in range(k)], ["lo0"]))])
+    # --- the same graph under several enumeration orders: the verdict class must not move (map iteration order) ----------------
+    shuffle_groups = []
+    for i in range(300 if quick else 3000):
+        nodes = random_graph(rng, 14)
+        grp = []
+        for _ in range(3):
+            perm = list(nodes)
+            rng.shuffle(perm)
+            families.setdefault("shuffle", []).append(graph(perm, grouping=rng.choice(["single", "bypkg"])))
+            grp.append(len(families["shuffle"]) - 1)
+        shuffle_groups.append(grp)
     # --- random graphs -----------------------------------------------------------------------------
     for i in range(1500 if quick else 6000):
         add("random", random_graph(rng, 40 if i % 4 else 12), grouping=rng.choice(["single", "bypkg"]))
@@ -623,6 +670,23 @@ def run(ctx):
             if f == fam and x.get("verdict") == "reject":
                 ctx.sample({"family": fam, "request": {"ws": g["ws"], "pkgs": g["pkgs"]}, "impl": {k: v for k, v in x.items() if k != "msgs"}}, limit=8)
                 break
+
+    # --- enumeration-order oracle (on the implementation's own answers) ------------------------------------------------------------
+    base_idx = 0
+    for fam, gs in families.items():
+        if fam == "shuffle":
+            break
+        base_idx += len(gs)
+    order_fail = 0
+    for grp in shuffle_groups:
+        classes = {verdict_class(impl_out[base_idx + i]) for i in grp}
+        if len(classes) > 1:
+            order_fail += 1
+            ctx.violation("the verdict for one graph depends on the order in which its targets are enumerated",
+                          {"kind": "oracle", "oracle": "enumeration order", "request": reqs[base_idx + grp[0]],
+                           "verdicts": [impl_out[base_idx + i] for i in grp]}, signature="verdict-depends-on-enumeration-order")
+    cov["shuffle_groups"] = len(shuffle_groups)
+    cov["order_dependence_failures"] = order_fail
 
     # --- paths: filepath.Clean / Join vs model ----------------------------------------------------------------
     preqs = []
@@ -805,17 +869,21 @@ def write_workspace(root, nodes, trace, files=None):
             if n["testonly"]:
                 t["tags"] = ["testonly"]
             by[key]["targets"].append(t)
-            for i in n["inputs"]:
-                ip = os.path.normpath(os.path.join(root, n["pkg"], i))
-                if i and not i.startswith("/") and ip.startswith(root + os.sep) and not os.path.exists(ip):
-                    os.makedirs(os.path.dirname(ip), exist_ok=True)
-                    open(ip, "w").write("input\n")
         else:
             by[key]["aliases"].append({"name": n["name"], "actual": lab(n["actual"])})
     for (pkg, fname), body in by.items():
         d = os.path.join(root, pkg)
         os.makedirs(d, exist_ok=True)
         json.dump(body, open(os.path.join(d, fname), "w"), indent=1)
+    for k, n in nodes:          # declared plain inputs inside the workspace exist (package directories come first)
+        for i in (n["inputs"] if k == "t" else []):
+            ip = os.path.normpath(os.path.join(root, n["pkg"], i))
+            if i and not i.startswith("/") and ip.startswith(root + os.sep) and not os.path.exists(ip):
+                try:
+                    os.makedirs(os.path.dirname(ip), exist_ok=True)
+                    open(ip, "w").write("input\n")
+                except OSError:
+                    pass
 
 
 CLI_CASES = [
